@@ -2,10 +2,12 @@ module verifh
 
 go 1.23
 
-require 0chain.net v0.0.0
+require (
+	0chain.net v0.0.0
+	github.com/0chain/common v1.13.1-0.20240726100134-cbf5bf9beaac
+)
 
 require (
-	github.com/0chain/common v1.13.1-0.20240726100134-cbf5bf9beaac // indirect
 	github.com/0chain/errors v1.0.3 // indirect
 	github.com/0chain/gosdk v1.16.0 // indirect
 	github.com/IBM/sarama v1.42.2 // indirect
